@@ -226,7 +226,7 @@ std_check("C12", [("many", 80, 1200), ("backlog", 6, 60), ("evict", 16, 64), ("s
 std_check("C13", [("many", 80, 1200), ("backlog", 10, 100), ("sockpeer", 24, 300)],
           ["C13.AcceptFifo", "C13.BacklogBound", "C13.RefusedOnlyWhenFull", "C13.ExcessRefused", "C13.ResetMatches",
            "C13.AcceptReturnsMatched", "C13.AcceptCallOrder", "C13.PairOnce"], model_spec=SOCK_MODEL)
-std_check("C14", [("mtu", 60, 1000), ("xfer", 20, 200), ("hostile", 20, 200)],
+std_check("C14", [("mtu", 60, 1000), ("xfer", 20, 200), ("hostile", 20, 200), ("probe_loss", 40, 400), ("peer_send", 40, 400)],
           ["C14.NeverAboveLink", "C14.OrdinaryWithinProven", "C14.OneProbe", "C14.Converges", "C14.LogProbes"],
           parts=[("mtu", None), ("segs", ["C14."])])
 std_check("C17", [("close", 100, 1500), ("peer_send", 40, 500), ("peer_recv", 40, 500), ("hostile", 20, 300),
